@@ -146,22 +146,26 @@ EXPORT char *_gets_s_chk(char *restrict dest, rsize_t dmax,
     }
 
     errno = 0;
-    ret = fgets(dest, dmax + 1, stdin);
+    /* at most dmax-1 characters and the terminator: never past dest */
+    ret = fgets(dest, dmax, stdin);
 
     if (likely(ret)) {
         rsize_t len = (rsize_t)strnlen(dest, dmax);
         if (len > 0 && dest[len - 1] == '\n') {
-            dest[len - 1] = 0;
-        } else if (len > (rsize_t)(dmax - 1)) {
-            ret = NULL;
-            goto nospc;
-        } else if (feof(stdin)) /* dead code: feof returns NULL */
-            ;
-        else if (len == (rsize_t)(dmax - 1) && dest[len] == '\0') {
-            ret = NULL;
-            goto nospc;
+            dest[--len] = 0;
+        } else if (len == (rsize_t)(dmax - 1)) {
+            /* dest is full: the line fits only if it ends right here */
+            int c = getc(stdin);
+            if (c != '\n' && c != EOF) {
+                ret = NULL; /* too long */
+                goto nospc;
+            }
         }
+#ifdef SAFECLIB_STR_NULL_SLACK
+        memset(dest + len, 0, dmax - len);
+#endif
     } else {
+        dest[0] = '\0'; /* nothing was read */
         if (!feof(stdin) && errno == 0) { /* closed? */
         nospc:
             handle_error(dest, dmax, "gets_s: length exceeds dmax", ESNOSPC);
